@@ -656,4 +656,584 @@ theorem take_ascending_before_rest {lt : P → P → Bool} (l : List P) (h : l.P
     · rw [List.drop_eq_nil_of_le (by omega)] at hd; cases hd
   omega
 
+/-! ### counting: the in-flight queries are exactly the `waiting` peers, at most α of them -/
+
+theorem numIn_eq_length_of_bij (ps : PS P) (l : List P) (hn : (ids ps).Nodup) (hl : l.Nodup)
+    (h1 : ∀ p ∈ l, stateOf ps p .waiting) (h2 : ∀ e ∈ ps, e.state = .waiting → e.id ∈ l) :
+    numIn ps .waiting = l.length := by
+  unfold numIn
+  have hnd : ((ps.filter (·.state == .waiting)).map (·.id)).Nodup :=
+    List.Nodup.sublist (List.filter_sublist.map _) hn
+  have hperm : ((ps.filter (·.state == .waiting)).map (·.id)).Perm l := by
+    rw [List.perm_ext_iff_of_nodup hnd hl]
+    intro a
+    simp only [List.mem_map, List.mem_filter, beq_iff_eq]
+    constructor
+    · rintro ⟨e, ⟨he, hw⟩, rfl⟩; exact h2 e he hw
+    · intro ha
+      obtain ⟨e, he, hid, hw⟩ := h1 a ha
+      exact ⟨e, ⟨he, hw⟩, hid⟩
+  have := hperm.length_eq
+  simpa using this
+
+structure Inv2 (cfg : Cfg P) (s : LState P) : Prop where
+  base : Inv cfg s
+  bound : s.inflight.length ≤ cfg.α
+  /-- while the search runs something is in flight: the loop never waits for nothing -/
+  progress : s.terminated = none → s.inflight ≠ []
+
+theorem numIn_waiting (cfg : Cfg P) (s : LState P) (h : Inv cfg s) (hnone : s.terminated = none) :
+    numIn s.ps .waiting = s.inflight.length :=
+  numIn_eq_length_of_bij s.ps s.inflight h.nodup h.inflNodup h.inflWaiting (h.waitingInfl hnone)
+
+theorem numIn_zero_iff (ps : PS P) (st : PState) : numIn ps st = 0 ↔ ∀ e ∈ ps, e.state ≠ st := by
+  unfold numIn
+  rw [List.length_eq_zero_iff, List.filter_eq_nil_iff]
+  simp
+
+theorem closestNIn_heard_ne_nil (cfg : Cfg P) (ps : PS P) (n : Nat) (hn : 0 < n) (hh : numIn ps .heard ≠ 0) :
+    closestNIn cfg ps n (· == .heard) ≠ [] := by
+  intro hnil
+  apply hh
+  rw [numIn_zero_iff]
+  intro e he hs
+  have : e.id ∈ candidates cfg ps (· == .heard) := (mem_candidates _ _ _ _).2 ⟨e, he, rfl, by simp [hs]⟩
+  rw [closestNIn_eq_take] at hnil
+  cases hc : candidates cfg ps (· == .heard) with
+  | nil => rw [hc] at this; cases this
+  | cons a l =>
+    rw [hc] at hnil
+    cases n with
+    | zero => omega
+    | succ m => simp at hnil
+
+theorem decide_inv2 (cfg : Cfg P) (hα : 1 ≤ cfg.α) (s : LState P) (stop : Bool) (h : Inv cfg s)
+    (hb : s.inflight.length ≤ cfg.α) : Inv2 cfg (decide cfg s stop) := by
+  refine ⟨decide_inv cfg s stop h, ?_, ?_⟩
+  · unfold decide
+    split
+    · exact hb
+    · split
+      · exact hb
+      · split
+        · exact hb
+        · split
+          · exact hb
+          · rename_i ht _ _ _
+            have hnone : s.terminated = none := by
+              cases hx : s.terminated with
+              | none => rfl
+              | some r => simp [hx] at ht
+            show (s.inflight ++ closestNIn cfg s.ps _ _).length ≤ cfg.α
+            rw [List.length_append]
+            have := closestNIn_length cfg s.ps (cfg.α - numIn s.ps .waiting) (· == .heard)
+            rw [numIn_waiting cfg s h hnone] at this ⊢
+            omega
+  · unfold decide
+    split
+    · rename_i ht; intro hc; rw [hc] at ht; simp at ht
+    · split
+      · intro hc; cases hc
+      · split
+        · intro hc; cases hc
+        · split
+          · intro hc; cases hc
+          · rename_i ht _ hstarv _
+            have hnone : s.terminated = none := by
+              cases hx : s.terminated with
+              | none => rfl
+              | some r => simp [hx] at ht
+            intro _
+            show s.inflight ++ closestNIn cfg s.ps _ _ ≠ []
+            by_cases hi : s.inflight = []
+            · -- nothing waiting: then something is heard (no starvation) and α ≥ 1 queries are spawned
+              have hw : numIn s.ps .waiting = 0 := by rw [numIn_waiting cfg s h hnone, hi]; rfl
+              have hh : numIn s.ps .heard ≠ 0 := by
+                intro h0
+                apply hstarv
+                simp [starvation, h0, hw]
+              have := closestNIn_heard_ne_nil cfg s.ps (cfg.α - numIn s.ps .waiting) (by rw [hw]; omega) hh
+              intro hc
+              exact this (List.append_eq_nil_iff.1 hc).2
+            · intro hc; exact hi (List.append_eq_nil_iff.1 hc).1
+
+theorem step_inv2 (cfg : Cfg P) (hα : 1 ≤ cfg.α) (accept : P → Bool) (stop : LState P → Bool) (s s' : LState P) (e : Ev P)
+    (h : Inv2 cfg s) (hs : step cfg accept stop s e = .ok s') : Inv2 cfg s' := by
+  cases e with
+  | cancel =>
+    simp only [step] at hs
+    split at hs
+    · cases hs; exact h
+    · cases hs
+      exact ⟨⟨h.base.nodup, h.base.noSelf, h.base.inflNodup, h.base.inflWaiting, by intro hc; cases hc⟩, h.bound,
+        by intro hc; cases hc⟩
+  | deliver p o =>
+    by_cases hnone : s.terminated = none
+    · by_cases hp : p ∈ s.inflight
+      · rw [step_deliver_eq cfg accept stop s p o h.base hnone hp] at hs
+        cases hs
+        refine decide_inv2 cfg hα _ _ ?_ ?_
+        · cases o with
+          | fail => exact inv_after_update cfg s p _ .unreachable (Or.inr rfl) h.base hp hnone
+          | resp peers => exact inv_after_update cfg s p _ .queried (Or.inl rfl) h.base hp hnone
+        · show (s.inflight.erase p).length ≤ cfg.α
+          have := List.length_erase_of_mem hp
+          have := h.bound
+          omega
+      · have hc : s.inflight.contains p = false := by simpa using hp
+        simp only [step, hnone, Option.isSome_none, Bool.false_eq_true, ↓reduceIte, hc, Bool.not_false] at hs
+        cases hs; exact h
+    · have hsome : s.terminated.isSome = true := by
+        cases hx : s.terminated with
+        | none => exact absurd hx hnone
+        | some _ => rfl
+      simp only [step, hsome, ↓reduceIte] at hs
+      cases hs
+      refine ⟨⟨h.base.nodup, h.base.noSelf, h.base.inflNodup.erase p,
+        fun q hq => h.base.inflWaiting q (List.mem_of_mem_erase hq), ?_⟩, ?_, ?_⟩
+      · intro hc; exact absurd hc hnone
+      · show (s.inflight.erase p).length ≤ cfg.α
+        have := List.length_erase_le (a := p) (l := s.inflight)
+        have := h.bound
+        omega
+      · intro hc; exact absurd hc hnone
+
+theorem start_inv2 (cfg : Cfg P) (hα : 1 ≤ cfg.α) (stop : LState P → Bool) (seeds : List P) (s : LState P)
+    (hs : start cfg stop seeds = .ok s) : Inv2 cfg s := by
+  simp only [start, applyUpdate_seed, bind, Except.bind, pure, Except.pure] at hs
+  cases hs
+  refine decide_inv2 cfg hα _ _ ⟨?_, ?_, List.nodup_nil, by simp, ?_⟩ (by simp)
+  · exact addHeard_nodup cfg [] cfg.self seeds (by simp [ids])
+  · intro hm
+    rcases (mem_ids_addHeard cfg [] cfg.self seeds cfg.self).1 hm with h1 | ⟨_, h1⟩
+    · simp [ids] at h1
+    · exact h1 rfl
+  · intro _ e he hw
+    rcases mem_addHeard cfg [] cfg.self seeds e he with h1 | ⟨h1, _⟩
+    · cases h1
+    · rw [h1] at hw; cases hw
+
+theorem runEvs_inv2 (cfg : Cfg P) (hα : 1 ≤ cfg.α) (accept : P → Bool) (stop : LState P → Bool) (s s' : LState P)
+    (evs : List (Ev P)) (h : Inv2 cfg s) (hs : runEvs cfg accept stop s evs = .ok s') : Inv2 cfg s' := by
+  induction evs generalizing s with
+  | nil => simp only [runEvs, pure, Except.pure] at hs; cases hs; exact h
+  | cons e es ih =>
+    obtain ⟨s1, h1, _⟩ := step_ok cfg accept stop s e h.base
+    simp only [runEvs, h1, bind, Except.bind] at hs
+    exact ih s1 (step_inv2 cfg hα accept stop s s1 e h h1) hs
+
+/-! ### every peer is asked at most once in the search phase; a terminated search is frozen -/
+
+structure Inv3 (cfg : Cfg P) (s : LState P) : Prop where
+  base : Inv cfg s
+  spawnedNodup : s.spawned.Nodup
+  /-- a spawned peer is never `heard` again -/
+  spawnedNotHeard : ∀ p ∈ s.spawned, ¬ stateOf s.ps p .heard
+  spawnedKnown : ∀ p ∈ s.spawned, p ∈ ids s.ps
+
+theorem stateOf_setState_other (ps : PS P) (p q : P) (st a : PState) (hqp : q ≠ p) :
+    stateOf (setState ps p st) q a ↔ stateOf ps q a := by
+  unfold stateOf
+  constructor
+  · rintro ⟨x, hx, hid, hs⟩
+    obtain ⟨e, he, rfl⟩ := (mem_setState _ _ _ _).1 hx
+    by_cases hep : e.id = p
+    · simp [hep] at hid; exact absurd hid.symm hqp
+    · have : (e.id == p) = false := by simpa using hep
+      simp only [this, Bool.false_eq_true, ↓reduceIte] at hid hs
+      exact ⟨e, he, hid, hs⟩
+  · rintro ⟨e, he, hid, hs⟩
+    refine ⟨e, (mem_setState _ _ _ _).2 ⟨e, he, ?_⟩, hid, hs⟩
+    have : (e.id == p) = false := by rw [hid]; simpa using hqp
+    simp [this]
+
+/-- `decide` either leaves peer set and spawn list alone or spawns the nearest `heard` peers -/
+theorem decide_cases (cfg : Cfg P) (s : LState P) (stop : Bool) :
+    ((decide cfg s stop).ps = s.ps ∧ (decide cfg s stop).spawned = s.spawned) ∨
+    ((decide cfg s stop).ps = setStates s.ps (closestNIn cfg s.ps (cfg.α - numIn s.ps .waiting) (· == .heard)) .waiting ∧
+     (decide cfg s stop).spawned = s.spawned ++ closestNIn cfg s.ps (cfg.α - numIn s.ps .waiting) (· == .heard)) := by
+  unfold decide
+  split
+  · exact Or.inl ⟨rfl, rfl⟩
+  · split
+    · exact Or.inl ⟨rfl, rfl⟩
+    · split
+      · exact Or.inl ⟨rfl, rfl⟩
+      · split
+        · exact Or.inl ⟨rfl, rfl⟩
+        · exact Or.inr ⟨rfl, rfl⟩
+
+theorem decide_inv3 (cfg : Cfg P) (s : LState P) (stop : Bool) (h : Inv3 cfg s) : Inv3 cfg (decide cfg s stop) := by
+  refine ⟨decide_inv cfg s stop h.base, ?_, ?_, ?_⟩
+  · rcases decide_cases cfg s stop with ⟨_, h2⟩ | ⟨_, h2⟩
+    · rw [h2]; exact h.spawnedNodup
+    · rw [h2]
+      have hq := mem_closestNIn cfg s.ps (cfg.α - numIn s.ps .waiting) (· == .heard)
+      rw [List.nodup_append]
+      refine ⟨h.spawnedNodup, closestNIn_nodup _ _ _ _ h.base.nodup, ?_⟩
+      intro a ha b hb heq
+      subst heq
+      obtain ⟨e, he, hid, hst⟩ := hq a hb
+      exact h.spawnedNotHeard a ha ⟨e, he, hid, by simpa using hst⟩
+  · rcases decide_cases cfg s stop with ⟨h1, h2⟩ | ⟨h1, h2⟩
+    · rw [h1, h2]; exact h.spawnedNotHeard
+    · rw [h1, h2]
+      intro p hp
+      rintro ⟨x, hx, hid, hs⟩
+      obtain ⟨e, he, rfl⟩ := (mem_setStates _ _ _ _).1 hx
+      by_cases hin : e.id ∈ closestNIn cfg s.ps (cfg.α - numIn s.ps .waiting) (· == .heard)
+      · simp [hin] at hs
+      · simp only [hin, ↓reduceIte] at hid hs
+        rcases List.mem_append.1 hp with hp | hp
+        · exact h.spawnedNotHeard p hp ⟨e, he, hid, hs⟩
+        · rw [← hid] at hp; exact hin hp
+  · rcases decide_cases cfg s stop with ⟨h1, h2⟩ | ⟨h1, h2⟩
+    · rw [h1, h2]; exact h.spawnedKnown
+    · rw [h1, h2]
+      intro p hp
+      rw [ids_setStates]
+      rcases List.mem_append.1 hp with hp | hp
+      · exact h.spawnedKnown p hp
+      · obtain ⟨e, he, hid, _⟩ := mem_closestNIn _ _ _ _ _ hp
+        rw [← hid]; exact mem_ids_of_mem he
+
+theorem step_inv3 (cfg : Cfg P) (accept : P → Bool) (stop : LState P → Bool) (s s' : LState P) (e : Ev P)
+    (h : Inv3 cfg s) (hs : step cfg accept stop s e = .ok s') : Inv3 cfg s' := by
+  cases e with
+  | cancel =>
+    simp only [step] at hs
+    split at hs
+    · cases hs; exact h
+    · cases hs
+      exact ⟨⟨h.base.nodup, h.base.noSelf, h.base.inflNodup, h.base.inflWaiting, by intro hc; cases hc⟩,
+        h.spawnedNodup, h.spawnedNotHeard, h.spawnedKnown⟩
+  | deliver p o =>
+    by_cases hnone : s.terminated = none
+    · by_cases hp : p ∈ s.inflight
+      · rw [step_deliver_eq cfg accept stop s p o h.base hnone hp] at hs
+        cases hs
+        apply decide_inv3
+        have hbase : Inv cfg { s with ps := setState (addHeard cfg s.ps p (outcomeHeard cfg accept o)) p (outcomeState o),
+                                      inflight := s.inflight.erase p } := by
+          cases o with
+          | fail => exact inv_after_update cfg s p _ .unreachable (Or.inr rfl) h.base hp hnone
+          | resp peers => exact inv_after_update cfg s p _ .queried (Or.inl rfl) h.base hp hnone
+        refine ⟨hbase, h.spawnedNodup, ?_, ?_⟩
+        · intro q hq
+          show ¬ stateOf (setState (addHeard cfg s.ps p _) p _) q .heard
+          rintro ⟨x, hx, hid, hst⟩
+          obtain ⟨e, he, rfl⟩ := (mem_setState _ _ _ _).1 hx
+          by_cases hep : e.id = p
+          · simp only [hep, beq_self_eq_true, ↓reduceIte] at hst
+            cases o <;> simp [outcomeState] at hst
+          · have hf : (e.id == p) = false := by simpa using hep
+            simp only [hf, Bool.false_eq_true, ↓reduceIte] at hid hst
+            rcases mem_addHeard cfg s.ps p _ e he with h1 | ⟨_, h2⟩
+            · exact h.spawnedNotHeard q hq ⟨e, h1, hid, hst⟩
+            · rw [hid] at h2; exact h2 (h.spawnedKnown q hq)
+        · intro q hq
+          show q ∈ ids (setState (addHeard cfg s.ps p _) p _)
+          rw [ids_setState]
+          exact (mem_ids_addHeard _ _ _ _ _).2 (Or.inl (h.spawnedKnown q hq))
+      · have hc : s.inflight.contains p = false := by simpa using hp
+        simp only [step, hnone, Option.isSome_none, Bool.false_eq_true, ↓reduceIte, hc, Bool.not_false] at hs
+        cases hs; exact h
+    · have hsome : s.terminated.isSome = true := by
+        cases hx : s.terminated with
+        | none => exact absurd hx hnone
+        | some _ => rfl
+      simp only [step, hsome, ↓reduceIte] at hs
+      cases hs
+      exact ⟨⟨h.base.nodup, h.base.noSelf, h.base.inflNodup.erase p,
+        fun q hq => h.base.inflWaiting q (List.mem_of_mem_erase hq), by intro hc; exact absurd hc hnone⟩,
+        h.spawnedNodup, h.spawnedNotHeard, h.spawnedKnown⟩
+
+/-- once terminated, the peer set and the list of queries issued never change again -/
+theorem step_frozen (cfg : Cfg P) (accept : P → Bool) (stop : LState P → Bool) (s s' : LState P) (e : Ev P)
+    (ht : s.terminated.isSome = true) (hs : step cfg accept stop s e = .ok s') :
+    s'.ps = s.ps ∧ s'.spawned = s.spawned ∧ s'.terminated = s.terminated := by
+  cases e with
+  | cancel => simp only [step, ht, ↓reduceIte, pure, Except.pure] at hs; cases hs; exact ⟨rfl, rfl, rfl⟩
+  | deliver p o => simp only [step, ht, ↓reduceIte, pure, Except.pure] at hs; cases hs; exact ⟨rfl, rfl, rfl⟩
+
+/-! ### why the search ended -/
+
+structure Inv4 (cfg : Cfg P) (s : LState P) : Prop where
+  completed : s.terminated = some .completed → lookupTermination cfg s.ps = true
+  starved : s.terminated = some .starvation → starvation s.ps = true
+
+theorem decide_inv4 (cfg : Cfg P) (s : LState P) (stop : Bool) (h : Inv4 cfg s) : Inv4 cfg (decide cfg s stop) := by
+  unfold decide
+  split
+  · exact h
+  · rename_i ht
+    have hnone : s.terminated = none := by
+      cases hx : s.terminated with
+      | none => rfl
+      | some r => simp [hx] at ht
+    split
+    · exact ⟨(by intro hc; cases hc), (by intro hc; cases hc)⟩
+    · split
+      · rename_i hs; exact ⟨(by intro hc; cases hc), fun _ => hs⟩
+      · split
+        · rename_i hl; exact ⟨fun _ => hl, (by intro hc; cases hc)⟩
+        · refine ⟨?_, ?_⟩ <;> (intro hc; simp only at hc; rw [hnone] at hc; cases hc)
+
+theorem step_inv4 (cfg : Cfg P) (accept : P → Bool) (stop : LState P → Bool) (s s' : LState P) (e : Ev P)
+    (hb : Inv cfg s) (h : Inv4 cfg s) (hs : step cfg accept stop s e = .ok s') : Inv4 cfg s' := by
+  by_cases ht : s.terminated.isSome = true
+  · obtain ⟨h1, _, h3⟩ := step_frozen cfg accept stop s s' e ht hs
+    exact ⟨by rw [h1, h3]; exact h.completed, by rw [h1, h3]; exact h.starved⟩
+  · have hnone : s.terminated = none := by
+      cases hx : s.terminated with
+      | none => rfl
+      | some r => simp [hx] at ht
+    cases e with
+    | cancel =>
+      simp only [step, ht, Bool.false_eq_true, ↓reduceIte, pure, Except.pure] at hs
+      cases hs
+      exact ⟨(by intro hc; cases hc), (by intro hc; cases hc)⟩
+    | deliver p o =>
+      by_cases hp : p ∈ s.inflight
+      · rw [step_deliver_eq cfg accept stop s p o hb hnone hp] at hs
+        cases hs
+        apply decide_inv4
+        exact ⟨(by intro hc; simp only at hc; rw [hnone] at hc; cases hc), (by intro hc; simp only at hc; rw [hnone] at hc; cases hc)⟩
+      · have hc : s.inflight.contains p = false := by simpa using hp
+        simp only [step, hnone, Option.isSome_none, Bool.false_eq_true, ↓reduceIte, hc, Bool.not_false] at hs
+        cases hs; exact h
+
+/-! ### honest networks -/
+
+structure Net (P : Type) where
+  peers : List P
+  knows : P → List P
+
+/-- an honest peer answers with the K nearest peers it knows, never itself and never the requester -/
+def honestAnswer (cfg : Cfg P) (net : Net P) (c : P) : List P :=
+  (sortBy cfg.lt ((net.knows c).filter fun x => x != c && x != cfg.self)).take cfg.K
+
+/-- every event is the honest answer of the peer it comes from: nobody fails, nothing is cancelled -/
+def HonestSched (cfg : Cfg P) (net : Net P) (evs : List (Ev P)) : Prop :=
+  ∀ e ∈ evs, ∃ p, e = .deliver p (.resp (honestAnswer cfg net p))
+
+structure NetOK (cfg : Cfg P) (net : Net P) : Prop where
+  closed : ∀ c x, x ∈ net.knows c → x ∈ net.peers
+  /-- the local node is a client: it is not part of the network it searches -/
+  selfOut : cfg.self ∉ net.peers
+
+theorem honestAnswer_sub (cfg : Cfg P) (net : Net P) (c x : P) (h : x ∈ honestAnswer cfg net c) :
+    x ∈ net.knows c ∧ x ≠ c ∧ x ≠ cfg.self := by
+  unfold honestAnswer at h
+  have := (mem_sortBy _ _ _).1 (List.mem_of_mem_take h)
+  have h2 := List.mem_filter.1 this
+  exact ⟨h2.1, by simpa using h2.2⟩
+
+theorem ingest_honest (cfg : Cfg P) (net : Net P) (c : P) :
+    ingest cfg (fun _ => true) (honestAnswer cfg net c) = honestAnswer cfg net c := by
+  unfold ingest
+  have hl : (honestAnswer cfg net c).length ≤ 2 * cfg.K := by
+    unfold honestAnswer; rw [List.length_take]; omega
+  rw [List.take_of_length_le hl]
+  apply List.filter_eq_self.2
+  intro x hx
+  have := honestAnswer_sub cfg net c x hx
+  simp [this.2.2]
+
+/-- under an honest schedule nobody is unreachable and the answers of queried peers have been absorbed -/
+structure HonestInv (cfg : Cfg P) (net : Net P) (s : LState P) : Prop where
+  noUnreachable : ∀ e ∈ s.ps, e.state ≠ .unreachable
+  absorbed : ∀ e ∈ s.ps, e.state = .queried → ∀ x ∈ honestAnswer cfg net e.id, x ∈ ids s.ps
+
+theorem decide_honest (cfg : Cfg P) (net : Net P) (s : LState P) (stop : Bool) (h : HonestInv cfg net s) :
+    HonestInv cfg net (decide cfg s stop) := by
+  rcases decide_cases cfg s stop with ⟨h1, _⟩ | ⟨h1, _⟩
+  · exact ⟨by rw [h1]; exact h.noUnreachable, by rw [h1]; exact h.absorbed⟩
+  · refine ⟨?_, ?_⟩
+    · rw [h1]
+      intro x hx
+      obtain ⟨e, he, rfl⟩ := (mem_setStates _ _ _ _).1 hx
+      split
+      · simp
+      · exact h.noUnreachable e he
+    · rw [h1]
+      intro x hx hq y hy
+      rw [ids_setStates]
+      obtain ⟨e, he, rfl⟩ := (mem_setStates _ _ _ _).1 hx
+      by_cases hin : e.id ∈ closestNIn cfg s.ps (cfg.α - numIn s.ps .waiting) (· == .heard)
+      · simp [hin] at hq
+      · simp only [hin, ↓reduceIte] at hq hy
+        exact h.absorbed e he hq y hy
+
+theorem step_honest (cfg : Cfg P) (net : Net P) (stop : LState P → Bool) (s s' : LState P) (p : P)
+    (hb : Inv cfg s) (h : HonestInv cfg net s)
+    (hs : step cfg (fun _ => true) stop s (.deliver p (.resp (honestAnswer cfg net p))) = .ok s') : HonestInv cfg net s' := by
+  by_cases ht : s.terminated.isSome = true
+  · obtain ⟨h1, _, _⟩ := step_frozen cfg _ stop s s' _ ht hs
+    exact ⟨by rw [h1]; exact h.noUnreachable, by rw [h1]; exact h.absorbed⟩
+  · have hnone : s.terminated = none := by
+      cases hx : s.terminated with
+      | none => rfl
+      | some r => simp [hx] at ht
+    by_cases hp : p ∈ s.inflight
+    · rw [step_deliver_eq cfg _ stop s p _ hb hnone hp] at hs
+      cases hs
+      apply decide_honest
+      simp only [outcomeHeard, outcomeState, ingest_honest]
+      refine ⟨?_, ?_⟩
+      · intro x hx
+        obtain ⟨e, he, rfl⟩ := (mem_setState _ _ _ _).1 hx
+        split
+        · simp
+        · rcases mem_addHeard cfg s.ps p _ e he with h1 | ⟨h1, _⟩
+          · exact h.noUnreachable e h1
+          · rw [h1]; simp
+      · intro x hx hq y hy
+        show y ∈ ids (setState (addHeard cfg s.ps p (honestAnswer cfg net p)) p .queried)
+        rw [ids_setState]
+        obtain ⟨e, he, rfl⟩ := (mem_setState _ _ _ _).1 hx
+        by_cases hep : e.id = p
+        · -- the peer that just answered: its answer was added by the `heard` loop
+          simp only [hep, beq_self_eq_true, ↓reduceIte] at hy
+          exact (mem_ids_addHeard _ _ _ _ _).2 (Or.inr ⟨hy, (honestAnswer_sub cfg net p y hy).2.2⟩)
+        · have hf : (e.id == p) = false := by simpa using hep
+          simp only [hf, Bool.false_eq_true, ↓reduceIte] at hq hy
+          rcases mem_addHeard cfg s.ps p _ e he with h1 | ⟨h1, _⟩
+          · exact (mem_ids_addHeard _ _ _ _ _).2 (Or.inl (h.absorbed e h1 hq y hy))
+          · rw [h1] at hq; cases hq
+    · have hc : s.inflight.contains p = false := by simpa using hp
+      simp only [step, hnone, Option.isSome_none, Bool.false_eq_true, ↓reduceIte, hc, Bool.not_false] at hs
+      cases hs; exact h
+
+theorem runEvs_inv4 (cfg : Cfg P) (accept : P → Bool) (stop : LState P → Bool) (s s' : LState P) (evs : List (Ev P))
+    (hb : Inv cfg s) (h : Inv4 cfg s) (hs : runEvs cfg accept stop s evs = .ok s') : Inv4 cfg s' := by
+  induction evs generalizing s with
+  | nil => simp only [runEvs, pure, Except.pure] at hs; cases hs; exact h
+  | cons e es ih =>
+    obtain ⟨s1, h1, hi1⟩ := step_ok cfg accept stop s e hb
+    simp only [runEvs, h1, bind, Except.bind] at hs
+    exact ih s1 hi1 (step_inv4 cfg accept stop s s1 e hb h h1) hs
+
+theorem start_inv4 (cfg : Cfg P) (stop : LState P → Bool) (seeds : List P) (s : LState P)
+    (hs : start cfg stop seeds = .ok s) : Inv4 cfg s := by
+  simp only [start, applyUpdate_seed, bind, Except.bind, pure, Except.pure] at hs
+  cases hs
+  exact decide_inv4 cfg _ _ ⟨(by intro hc; cases hc), (by intro hc; cases hc)⟩
+
+theorem runEvs_honest (cfg : Cfg P) (net : Net P) (stop : LState P → Bool) (s s' : LState P) (evs : List (Ev P))
+    (hsched : HonestSched cfg net evs) (hb : Inv cfg s) (h : HonestInv cfg net s)
+    (hs : runEvs cfg (fun _ => true) stop s evs = .ok s') : HonestInv cfg net s' := by
+  induction evs generalizing s with
+  | nil => simp only [runEvs, pure, Except.pure] at hs; cases hs; exact h
+  | cons e es ih =>
+    obtain ⟨s1, h1, hi1⟩ := step_ok cfg (fun _ => true) stop s e hb
+    simp only [runEvs, h1, bind, Except.bind] at hs
+    obtain ⟨p, rfl⟩ := hsched e (by simp)
+    exact ih s1 (fun e he => hsched e (by simp [he])) hi1 (step_honest cfg net stop s s1 p hb h h1) hs
+
+theorem start_honest (cfg : Cfg P) (net : Net P) (stop : LState P → Bool) (seeds : List P) (s : LState P)
+    (hs : start cfg stop seeds = .ok s) : HonestInv cfg net s := by
+  simp only [start, applyUpdate_seed, bind, Except.bind, pure, Except.pure] at hs
+  cases hs
+  apply decide_honest
+  refine ⟨?_, ?_⟩
+  · intro e he
+    rcases mem_addHeard cfg [] cfg.self seeds e he with h1 | ⟨h1, _⟩
+    · cases h1
+    · rw [h1]; simp
+  · intro e he hq
+    rcases mem_addHeard cfg [] cfg.self seeds e he with h1 | ⟨h1, _⟩
+    · cases h1
+    · rw [h1] at hq; cases hq
+
+theorem namedBy_honest (cfg : Cfg P) (net : Net P) (hn : NetOK cfg net) (evs : List (Ev P))
+    (hsched : HonestSched cfg net evs) (q : P) (hq : q ∈ namedBy cfg (fun _ => true) evs) : q ∈ net.peers := by
+  induction evs with
+  | nil => cases hq
+  | cons e es ih =>
+    obtain ⟨p, rfl⟩ := hsched e (by simp)
+    simp only [namedBy, List.mem_append] at hq
+    rcases hq with h1 | h1
+    · rw [ingest_honest] at h1
+      exact hn.closed p q (honestAnswer_sub cfg net p q h1).1
+    · exact ih (fun e he => hsched e (by simp [he])) h1
+
+/-- the nearest candidate: head of the ascending candidate list -/
+theorem head_candidates_min (cfg : Cfg P) (ho : OrderOK cfg) (ps : PS P) (ok : PState → Bool) (hn : (ids ps).Nodup)
+    (c0 : P) (rest : List P) (hc : candidates cfg ps ok = c0 :: rest) :
+    ∀ y ∈ candidates cfg ps ok, y ≠ c0 → cfg.lt c0 y = true := by
+  have hasc := candidates_ascending cfg ho ps ok hn
+  rw [hc] at hasc ⊢
+  intro y hy hne
+  rcases List.mem_cons.1 hy with rfl | hy
+  · exact absurd rfl hne
+  · exact (List.pairwise_cons.1 hasc).1 y hy
+
+/-- the key property a network needs for lookups to converge: a peer that is not the nearest one knows
+    (and therefore names) somebody nearer than itself -/
+def Converging (cfg : Cfg P) (net : Net P) : Prop :=
+  ∀ c g, c ∈ net.peers → g ∈ net.peers → cfg.lt g c = true → ∃ x ∈ honestAnswer cfg net c, cfg.lt x c = true
+
+/-- Convergence: in a converging network where everybody answers honestly, a lookup that ran to completion
+    returns the globally nearest peer first. -/
+theorem nearest_first_core (cfg : Cfg P) (ho : OrderOK cfg) (net : Net P) (hn : NetOK cfg net) (hconv : Converging cfg net)
+    (hβ : 1 ≤ cfg.β) (hK : 1 ≤ cfg.K) (stop : LState P → Bool) (seeds : List P) (hseeds : ∀ p ∈ seeds, p ∈ net.peers)
+    (evs : List (Ev P)) (hsched : HonestSched cfg net evs) (s0 s : LState P)
+    (h0 : start cfg stop seeds = .ok s0) (h1 : runEvs cfg (fun _ => true) stop s0 evs = .ok s)
+    (hterm : s.terminated = some .completed) (hne : (result cfg s).peers ≠ []) :
+    ∃ c0, (result cfg s).peers.head? = some c0 ∧ c0 ∈ net.peers ∧ ∀ g ∈ net.peers, g ≠ c0 → cfg.lt c0 g = true := by
+  obtain ⟨s0', h0', hi0⟩ := start_ok cfg stop seeds
+  rw [h0] at h0'; cases h0'
+  obtain ⟨s', h1', hinv⟩ := runEvs_ok cfg (fun _ => true) stop s0 evs hi0
+  rw [h1] at h1'; cases h1'
+  have hhon := runEvs_honest cfg net stop s0 s evs hsched hi0 (start_honest cfg net stop seeds s0 h0) h1
+  have h4 := runEvs_inv4 cfg (fun _ => true) stop s0 s evs hi0 (start_inv4 cfg stop seeds s0 h0) h1
+  have hlt := h4.completed hterm
+  -- every known peer belongs to the network
+  have hsub : ∀ q ∈ ids s.ps, q ∈ net.peers := by
+    intro q hq
+    rcases runEvs_ids cfg (fun _ => true) stop s0 s evs hi0 h1 q hq with h2 | h2
+    · exact hseeds q (start_ids cfg stop seeds s0 h0 q h2)
+    · exact namedBy_honest cfg net hn evs hsched q h2
+  -- the candidate list is non-empty; call its head c0
+  cases hc : candidates cfg s.ps notUnreachable with
+  | nil => exact absurd (by show (candidates cfg s.ps notUnreachable).take cfg.K = []; rw [hc]; simp) hne
+  | cons c0 rest =>
+    have hmin := head_candidates_min cfg ho s.ps notUnreachable hinv.nodup c0 rest hc
+    have hc0mem : c0 ∈ candidates cfg s.ps notUnreachable := by rw [hc]; simp
+    obtain ⟨e0, he0, hid0, _⟩ := (mem_candidates _ _ _ _).1 hc0mem
+    have hhead : (result cfg s).peers.head? = some c0 := by
+      show ((candidates cfg s.ps notUnreachable).take cfg.K).head? = some c0
+      rw [hc]
+      cases hk : cfg.K with
+      | zero => omega
+      | succ k => rfl
+    refine ⟨c0, hhead, hsub c0 (by rw [← hid0]; exact mem_ids_of_mem he0), ?_⟩
+    -- c0 is among the β nearest, hence queried
+    have hq0 : getState s.ps c0 = some .queried := by
+      unfold lookupTermination at hlt
+      rw [List.all_eq_true] at hlt
+      have : c0 ∈ closestNIn cfg s.ps cfg.β notUnreachable := by
+        rw [closestNIn_eq_take, hc]
+        cases hb : cfg.β with
+        | zero => omega
+        | succ k => simp
+      simpa using hlt c0 this
+    obtain ⟨e, he, hid, hst⟩ := (getState_eq_some_iff s.ps hinv.nodup c0 .queried).1 hq0
+    intro g hg hgne
+    rcases ho.total c0 g (Ne.symm hgne) with h2 | h2
+    · exact h2
+    · -- somebody nearer than c0 exists: c0's answer names a peer nearer than c0, which must be a candidate
+      exfalso
+      obtain ⟨x, hx, hxlt⟩ := hconv c0 g (hsub c0 (by rw [← hid0]; exact mem_ids_of_mem he0)) hg h2
+      have hxin : x ∈ ids s.ps := hhon.absorbed e he hst x (by rw [hid]; exact hx)
+      obtain ⟨ex, hex, hxid⟩ := List.mem_map.1 hxin
+      have hxc : x ∈ candidates cfg s.ps notUnreachable := by
+        refine (mem_candidates _ _ _ _).2 ⟨ex, hex, hxid, ?_⟩
+        have := hhon.noUnreachable ex hex
+        cases hs : ex.state <;> simp_all [notUnreachable]
+      have hxne : x ≠ c0 := by intro heq; rw [heq, ho.irrefl] at hxlt; cases hxlt
+      have := hmin x hxc hxne
+      rw [ho.asymm _ _ this] at hxlt; cases hxlt
+
 end KadDHT.Lookup
